@@ -47,17 +47,19 @@ def run_pair(mod, harness, runner, lines):
         model = vlib.run_lines(runner, model_lines)
         return impl, model
     impl = vlib.run_lines(harness, lines)
-    # crashed shards: re-run the affected cases one by one so that only real crashes remain
+    # crashed shards: a process that dies takes the rest of its shard with it — re-run EVERY affected case on its own (in parallel), so that
+    # only cases that crash by themselves remain marked; when the batch died but no case reproduces alone (state carried across the
+    # cases of one process: a corrupted heap, a count released too often), the first case at which a process died is reported
     crashed = [i for i, o in enumerate(impl) if o is None or o.startswith("!CRASH")]
     if crashed:
-        first_real = None
-        for i in crashed[:400]:
-            o = vlib.run_one(harness, lines[i])
+        batch_msg = impl[crashed[0]] or "!CRASH"
+        from concurrent.futures import ThreadPoolExecutor
+        with ThreadPoolExecutor(max_workers=vlib.NPROC) as ex:
+            res = list(ex.map(lambda i: vlib.run_one(harness, lines[i]), crashed))
+        for i, o in zip(crashed, res):
             impl[i] = o
-            if o.startswith("!CRASH") and first_real is None:
-                first_real = i
-        for i in crashed[400:]:
-            impl[i] = "!SKIPPED after crash"
+        if not any(o.startswith("!CRASH") for o in res):
+            impl[crashed[0]] = batch_msg + " [the process died at this case while running a batch of cases; no case crashes on its own: state carried over from earlier cases of the batch]"
     model_lines = [mod.model_line(l) if hasattr(mod, "model_line") else l for l in lines]
     model = vlib.run_lines(runner, model_lines)
     return impl, model
